@@ -173,7 +173,14 @@ impl LookupClass<&StringName, Class> for Context {
     fn class(&self, class: &StringName, pos: Position) -> TypeResult<Class> {
         #[cfg(feature = "verif")]
         crate::verif_hooks::bump(5);
-        if let Some(generic_class) = self.classes.iter().find(|c| c.name.name == class.name) {
+        // Several classes may share a name (the stand-in of an import next to a built-in generic class):
+        // the one with the most generics is meant, never the first in hash order.
+        if let Some(generic_class) = self
+            .classes
+            .iter()
+            .filter(|c| c.name.name == class.name)
+            .max_by_key(|c| c.name.generics.len())
+        {
             let mut generics = HashMap::new();
             if class.name == TUPLE {
                 // Tuple exception, variable generic count
